@@ -23,6 +23,8 @@ var (
 	mVecSolve   = &method{name: "VecDense.SolveVec", pos: ab, errOp: 1, call: func(r any, o []mat.Matrix, cs *caseSpec) { cs.status = errClass(vd(r).SolveVec(o[0], vv(o[1]))) }}
 )
 
+var mVecPermute = &method{name: "VecDense.Permute", call: func(r any, _ []mat.Matrix, cs *caseSpec) { vd(r).Permute(append([]int(nil), cs.idx...), cs.trans) }}
+
 const (
 	sigGeomVecFalse = "geom|VecDense.checkOverlap|disjoint-same-inc|region-panic"
 	sigGeomVecMiss  = "geom|VecDense.checkOverlap|partial-overlap|no-panic"
@@ -212,6 +214,11 @@ func genVecUnary(ms []*method) func(e *emitter, i int) {
 		u := e.u
 		recv := e.sh(kVec, u.vwins[i])
 		n := recv.w.r
+		for _, inv := range []bool{false, true} {
+			for _, p := range permClasses(n) {
+				e.run(mVecPermute, recv, nil, caseSpec{idx: p, trans: inv})
+			}
+		}
 		for _, m := range ms {
 			e.run(m, recv, []opnd{identical(recv, false)}, caseSpec{})
 			e.run(m, recv, []opnd{identical(recv, true)}, caseSpec{})
